@@ -1,2 +1,10 @@
 -- Root of the `EraVerif` library: models, generated definitions, proofs, property theorems.
 import EraVerif.Props.C07
+import EraVerif.Props.C16
+import EraVerif.Props.C18
+import EraVerif.Props.C15
+import EraVerif.Props.C09
+import EraVerif.Props.C11
+import EraVerif.Props.C12
+import EraVerif.Props.C08
+import EraVerif.Props.C04
